@@ -240,10 +240,15 @@ func (ib *inbound) gate(cond ssa.Value) (string, bool) {
 			return "opRead", pol
 		}
 	}
-	// comma-ok of the operations map look-up
+	// comma-ok of the operations map look-up / of the pending approval look-up
 	if ex, ok := c.(*ssa.Extract); ok && ex.Index == 1 {
-		if lk, ok := ex.Tuple.(*ssa.Lookup); ok && lk.CommaOk && strings.HasSuffix(Path(lk.X), ".Operations()") {
-			return "opKnown", pol
+		if lk, ok := ex.Tuple.(*ssa.Lookup); ok && lk.CommaOk {
+			if strings.HasSuffix(Path(lk.X), ".Operations()") {
+				return "opKnown", pol
+			}
+			if strings.Contains(Path(lk.X), ".pendingWriteApprovals[]") {
+				return "pendingClaimed", pol
+			}
 		}
 	}
 	return "", true
